@@ -90,3 +90,14 @@ Example C06_copy_accepted_and_runs :
              /\ g_heap g' 0 = Some [7].
 Proof. exact copy_accepted_and_runs. Qed.
 Print Assumptions C06_copy_accepted_and_runs.
+
+(* the instance every generated corollary gen_<program>_sources_unchanged is obtained from: nothing is assumed about
+   the variables of the program (c0 = []), the chain is any sequence of writer classes taken from an accepted list *)
+Theorem C06_program_sources_unchanged : forall pool prog,
+  safe [] prog = true ->
+  forallb writer_ok pool = true ->
+  forall srcs ws e0 g g',
+    incl ws pool -> wf srcs g -> run_query srcs prog ws e0 g g' ->
+    (forall i, In i srcs -> g_heap g' i = g_heap g i) /\ (forall i, In i (g_log g') -> ~ In i srcs).
+Proof. exact program_sources_unchanged. Qed.
+Print Assumptions C06_program_sources_unchanged.
